@@ -39,22 +39,63 @@ def known_bad_rule_names():
     return sorted(names)
 
 
+SLOW_PLANS = []      # (sql, configuration) pairs on which the optimizer did not finish in time: reported as skipped
+
+
+def _plans_call(ddl, queries, configs, timeout):
+    out, rc, err = rl('plans', {'setup': ddl, 'queries': queries, 'configs': configs}, timeout=timeout)
+    cat, plans = None, []
+    for o in out:
+        if 'catalog' in o:
+            cat = o['catalog']
+        elif 'sql' in o:
+            plans.append(o)
+    return cat, plans, err
+
+
 def get_plans(ddl, queries, configs):
     """Bind + optimize every query under every configuration (real binder / optimizer).  Large corpora are planned in
-    batches so that one driver call stays well inside its time limit whatever the machine load."""
+    batches.  A batch that does not come back in time is planned query by query, and a query on which the optimizer does
+    not finish under some configuration (seen: a correlated NOT IN sub-query with every table estimated at 2 rows) is
+    planned under the remaining configurations only; the (query, configuration) pair is recorded in SLOW_PLANS."""
     cat = None
     plans = []
     step = 40
     for i0 in range(0, max(len(queries), 1), step):
-        out, rc, err = rl('plans', {'setup': ddl, 'queries': queries[i0:i0 + step], 'configs': configs}, timeout=900)
-        got_cat = False
-        for o in out:
-            if 'catalog' in o:
-                cat = o['catalog']
-                got_cat = True
-            elif 'sql' in o:
-                plans.append(o)
-        if not got_cat:
+        batch = queries[i0:i0 + step]
+        c, ps, err = _plans_call(ddl, batch, configs, 240)
+        if c is not None:
+            cat = c
+            plans += ps
+            continue
+        if 'timeout' not in err:
+            raise Inconclusive('driver `plans` failed: ' + err[-400:])
+        for q in batch:
+            c, ps, err = _plans_call(ddl, [q], configs, 45)
+            if c is not None:
+                cat = c
+                plans += ps
+                continue
+            if 'timeout' not in err:
+                raise Inconclusive('driver `plans` failed: ' + err[-400:])
+            good = []
+            for cfg in configs:
+                c1, ps1, err1 = _plans_call(ddl, [q], [cfg], 20)
+                if c1 is not None:
+                    good.append(cfg)
+                elif 'timeout' in err1:
+                    SLOW_PLANS.append((q, cfg['name']))
+                else:
+                    raise Inconclusive('driver `plans` failed: ' + err1[-400:])
+            if good:
+                c, ps, err = _plans_call(ddl, [q], good, 60)
+                if c is not None:
+                    cat = c
+                    plans += ps
+    if cat is None:
+        c, ps, err = _plans_call(ddl, [], configs, 60)
+        cat = c
+        if cat is None:
             raise Inconclusive('driver `plans` failed: ' + err[-400:])
     return cat, plans
 
@@ -214,6 +255,10 @@ def build_tasks(report, ddl, items, K, thorough, origin, use_ranges=False, only_
     if only_cfg:
         configs = [c for c in configs if c['name'].startswith(only_cfg)]
     cat, plans = get_plans(ddl, items, configs)
+    while SLOW_PLANS:
+        q_, c_ = SLOW_PLANS.pop()
+        report.skip('%s [%s]' % (q_, c_), 'the optimizer does not finish within 20 s under this configuration: no plan to compare (termination of planning is C17, not claimed)')
+        report.cov['optimizer_did_not_finish'] = report.cov.get('optimizer_did_not_finish', 0) + 1
     ban = known_bad_rule_names()
     tasks = []
     seen = set()
